@@ -152,7 +152,7 @@ def end_to_end(chk, tier):
     for r in range(n):
         t = ''.join(rng.choice('abcXYZ 019') for _ in range(rng.randint(1, 9)))
         u = ''.join(rng.choice('abXY?*') for _ in range(rng.randint(1, 3)))
-        i1, i2 = rng.randint(0, 99), rng.randint(-50, 500)
+        i1, i2 = (0 if r % 4 == 0 else rng.randint(0, 99)), rng.randint(-50, 500)       # zero is a number like any other: its text is 0
         a, b = rng.randint(0, len(t) + 1), rng.randint(0, len(t) + 1)
         values[(0, r)], values[(1, r)], values[(2, r)], values[(3, r)], values[(4, r)], values[(5, r)] = t, u, i1, i2, a, b
         row = r + 1
@@ -170,6 +170,8 @@ def end_to_end(chk, tier):
             ('="%s"&A%d' % (lit, row), lambda: lit + t),
             ('=CONCATENATE(A%d,B%d,C%d)' % (row, row, row), lambda: t + u + str(i1)),
             ('=CONCATENATE(B%d;"-";A%d)' % (row, row), lambda: u + '-' + t),
+            ('=CONCATENATE(A%d,0,"|")' % row, lambda: t + '0|'),
+            ('=CONCATENATE(C%d,"|",A%d)' % (row, row), lambda: str(i1) + '|' + t),
             ('=SEARCH(B%d,A%d)' % (row, row), lambda: inst._search(u, t, None)),
             ('=SEARCH(B%d,A%d,%d)' % (row, row, max(1, a)), lambda: inst._search(u, t, max(1, a))),
             ('=VALUE("%s")' % dec, lambda: float(dec)),
